@@ -11,9 +11,11 @@ converted to the destination representation type `D` (`D.wrap`: the value itself
 `scaleTrunc ρ k v` is the exact value of `v · ρ^k` truncated toward zero to an integer.
 `CvtOk S k ρ v` is the restriction: for `k ≥ 0` the power is well-formed and the scaled intermediate
 `v · ρ^k` fits `promote S`; for `k < 0` the divisor `ρ^(-k)` is a value of `promote S`
-(`PowFits` — for a signed `promote S` this is exactly "the instantiation compiles"; for an
-unsigned `promote S` and radix ≠ 2 the real code wraps the power silently when it does not fit,
-and the quotient is then wrong: see `unsigned_power_wraps_counterexample`).
+(`PowFits` — this is exactly "the instantiation compiles", for signed and unsigned representations and
+every radix: `power_wellformed_iff_representable`.  As found, an unsigned `promote S` with radix ≠ 2
+wrapped the power silently when it did not fit and the quotient was wrong — the repaired finding
+`C04.unsigned_power_value_wraps`, `unsigned_power_wraps_unrepaired_refuted`; `power_value` now asserts
+at every step of the repeated multiplication that the product fits).
 
 * `convert_exact_or_truncated` — the result is `D.wrap (scaleTrunc ρ (eS-eD) v)` at exponent `eD`.
 * `convert_value_preserved` — `eS ≥ eD` (or `ρ^(eD-eS)` divides `v`) and the value fits `D`: the result
@@ -140,13 +142,37 @@ theorem scaleTrunc_spec (ρ : Nat) (hρ : 2 ≤ ρ) (k v : Int) :
     have hpos := pw_pos hρ (-k).toNat
     exact roundDiv_truncate v _ (by omega)
 
-/-- **Counterexample outside the restriction** (genuine defect of the code, which the model
-follows): `power_value<uint32_t, 10, 10>` wraps to `10^10 mod 2^32 = 1410065408`, so converting
-`scaled_integer<uint32_t, power<-10, 10>>` with representation `2·10^9` (the value `0.2`) to
-`power<0, 10>` yields `1`, not `0`.  `PowFits` fails there. -/
-theorem unsigned_power_wraps_counterexample :
-    Layered.cast (.sc (.int u32) 0 10) (sc u32 (-10) 10 2000000000) = .ok (sc u32 0 10 1)
-    ∧ scaleTrunc 10 (-10 - 0) 2000000000 = 0 ∧ ¬ PowFits u32 10 10 ∧ PowOk u32 10 10 := by decide +kernel
+/-- the restriction is exactly well-formedness: `power_value<S, k, ρ>` compiles if and only if `ρ^k` is
+a value of the promoted type (every radix; signed and unsigned alike since the repair), and then it is
+that value.  Hence the conversions above are total on the instantiations that compile. -/
+theorem power_wellformed_iff_representable (S : IntTy) (k ρ : Nat) (hρ : 2 ≤ ρ) (hρi : (ρ:Int) ≤ 2147483647) :
+    ((∃ v, powerValueInt S k ρ = .ok v) ↔ PowFits S k ρ)
+    ∧ (PowFits S k ρ → powerValueInt S k ρ = .ok (if k = 0 then S else promote S, pw ρ k)) := by
+  refine ⟨(powerValueInt_ok_iff S k ρ hρ hρi).trans (powOk_iff_fits S k ρ hρ), fun h => ?_⟩
+  rw [powerValueInt_eq S k ρ hρ h.ok, IntTy.wrap_id (promote_bits_pos S) h]
+
+/-- repaired finding `C04.unsigned_power_value_wraps`: **as found** (`scaleIntOrig` over
+`powerValueIntOrig`), `power_value<uint32_t, 10, 10>` wrapped to `10^10 mod 2^32 = 1410065408`, so
+converting `scaled_integer<uint32_t, power<-10, 10>>` with representation `2·10^9` (the value `0.2`) to
+`power<0, 10>` — `static_cast<uint32_t>(scale<-10, 10>(rep))` — yielded `1`, not `0` (and `3` for the
+largest representation).  `PowFits` fails there; the repaired `power_value` is ill-formed
+(`static_assert`), as it always was for signed representations. -/
+theorem unsigned_power_wraps_unrepaired_refuted :
+    scaleIntOrig (-10) 10 (u32, 2000000000) = .ok (u32, 1)
+    ∧ scaleIntOrig (-10) 10 (u32, 4294967295) = .ok (u32, 3)
+    ∧ powerValueIntOrig u32 10 10 = .ok (u32, 1410065408)
+    ∧ scaleTrunc 10 (-10 - 0) 2000000000 = 0 ∧ scaleTrunc 10 (-10 - 0) 4294967295 = 0 ∧ ¬ PowFits u32 10 10
+    ∧ powerValueInt u32 10 10 = .ill "power_value: attempted operation will result in overflow"
+    ∧ Layered.cast (.sc (.int u32) 0 10) (sc u32 (-10) 10 2000000000)
+        = .ill "power_value: attempted operation will result in overflow" := by decide +kernel
+
+/-- the repair changed nothing where the power was representable -/
+theorem power_unchanged_where_representable (S : IntTy) (k ρ : Nat) (hρ : 2 ≤ ρ) (h : PowFits S k ρ) :
+    powerValueIntOrig S k ρ = powerValueInt S k ρ :=
+  powerValueIntOrig_eq S k ρ hρ h
+
+example : PowFits u32 9 10 ∧ powerValueInt u32 9 10 = .ok (u32, 1000000000) ∧ ¬ PowFits i32 10 10
+    ∧ PowFits u64 19 10 ∧ ¬ PowFits u64 20 10 ∧ PowFits u8 9 10 := by decide +kernel
 
 /-! ## Floating point, radix 2 -/
 
